@@ -200,12 +200,13 @@ func c13R2As(p *Prog, r *Report, rule string) {
 			type state struct {
 				b    *ssa.BasicBlock
 				fact bool
+				from *ssa.BasicBlock
 			}
 			seen := map[state]bool{}
 			violated := false
-			var walk func(b *ssa.BasicBlock, fact bool)
-			walk = func(b *ssa.BasicBlock, fact bool) {
-				s := state{b, fact}
+			var walkFrom func(b *ssa.BasicBlock, fact bool, from *ssa.BasicBlock)
+			walkFrom = func(b *ssa.BasicBlock, fact bool, from *ssa.BasicBlock) {
+				s := state{b, fact, from}
 				if seen[s] || violated {
 					return
 				}
@@ -222,6 +223,12 @@ func c13R2As(p *Prog, r *Report, rule string) {
 					}
 				}
 				if iff, ok := b.Instrs[len(b.Instrs)-1].(*ssa.If); ok {
+					// a condition merged from several tests (a && b kept in a variable): on the way in
+					// from a test that already failed it is the constant false, only one way out
+					if k := decidedOnEdge(iff.Cond, b, from); k >= 0 {
+						walkFrom(b.Succs[k], fact, b)
+						return
+					}
 					eq := -1 // successor index on which old == new is established
 					if bo, ok := iff.Cond.(*ssa.BinOp); ok && (bo.Op == token.NEQ || bo.Op == token.EQL) {
 						x, y := c.Of(bo.X), c.Of(bo.Y)
@@ -235,15 +242,15 @@ func c13R2As(p *Prog, r *Report, rule string) {
 						}
 					}
 					for i, s := range b.Succs {
-						walk(s, fact || i == eq)
+						walkFrom(s, fact || i == eq, b)
 					}
 					return
 				}
 				for _, s := range b.Succs {
-					walk(s, fact)
+					walkFrom(s, fact, b)
 				}
 			}
-			walk(fn.Blocks[0], false)
+			walkFrom(fn.Blocks[0], false, nil)
 			r.Check(!violated, rule, FuncName(fn)+" drops projectors when the record length changes", p.InstrPos(st),
 				"every path to the store passes the remover or the 'length unchanged' edge",
 				"the record length can change while projectors/basis validated for the old length stay installed: the next record makes the projection panic (or silently mis-project) in the block-processing goroutine")
